@@ -22,6 +22,8 @@ pub trait Srv: Sized {
     fn snap(&self, bt: u64) -> Option<String>;
     fn last(&self) -> u64;
     fn ids(&self) -> Vec<u64>;
+    /// tick that also returns the in-process result as a JSON value (for the transport comparison)
+    fn tick_annot(&mut self, bt: u64) -> Option<(String, serde_json::Value)>;
 }
 
 impl Srv for UApp {
@@ -78,6 +80,15 @@ impl Srv for UApp {
         let mut v: Vec<u64> = self.backtests.keys().cloned().collect();
         v.sort();
         v
+    }
+    fn tick_annot(&mut self, bt: u64) -> Option<(String, serde_json::Value)> {
+        let batch = self.backtests.get(&bt).map(|b| b.exchange.verif_snapshot().1).unwrap_or_default();
+        let (hn, trades, inserted) = UApp::tick(self, bt)?;
+        let a = match uist::admission_indices(&batch, &inserted) {
+            Some(ix) if ix.len() == batch.len() => format!("A {} {}", ix.len(), ix.iter().map(|i| i.to_string()).collect::<Vec<_>>().join(" ")),
+            _ => format!("A {} BAD", inserted.len()),
+        };
+        Some((a, serde_json::json!({"has_next": hn, "executed_trades": trades, "inserted_orders": inserted})))
     }
 }
 
@@ -167,6 +178,34 @@ impl Srv for JApp {
         v.sort();
         v
     }
+    fn tick_annot(&mut self, bt: u64) -> Option<(String, serde_json::Value)> {
+        let batch: Vec<serde_json::Value> = self
+            .backtests
+            .get(&bt)
+            .map(|b| b.exchange.verif_snapshot().1.iter().map(|o| serde_json::to_value(o).unwrap()).collect())
+            .unwrap_or_default();
+        let (hn, fills, inserted, kids) = JApp::tick(self, bt)?;
+        let ins: Vec<serde_json::Value> = inserted.iter().map(|o| serde_json::to_value(o).unwrap()).collect();
+        let mut used = vec![false; batch.len()];
+        let mut idx: Option<Vec<usize>> = Some(Vec::new());
+        for o in &ins {
+            match (0..batch.len()).find(|&i| !used[i] && &batch[i] == o) {
+                Some(i) => {
+                    used[i] = true;
+                    if let Some(v) = idx.as_mut() {
+                        v.push(i)
+                    }
+                }
+                None => idx = None,
+            }
+        }
+        let a = match &idx {
+            Some(ix) if ix.len() == batch.len() => format!("A {} {}", ix.len(), ix.iter().map(|i| i.to_string()).collect::<Vec<_>>().join(" ")),
+            _ => format!("A {} BAD", inserted.len()),
+        };
+        // everything the in-process call returns, including the ids of the triggered children
+        Some((a, serde_json::json!({"has_next": hn, "executed_trades": fills, "inserted_orders": inserted, "triggered_order_ids": kids})))
+    }
 }
 
 fn show_quotes(mut v: Vec<PenelopeQuote>) -> String {
@@ -186,7 +225,9 @@ pub fn gen(jura_kind: bool, seed: u64, cases: usize, flavour: &str, path: &str) 
         let names: Vec<&str> = if two { vec!["D", "E"] } else { vec!["D"] };
         let mut lens: HashMap<&str, u64> = HashMap::new();
         for name in &names {
-            let nd = if g.rng.chance(1, 20) { 0 } else if long { 1 + g.rng.below(40) } else { 1 + g.rng.below(8) };
+            // an empty dataset makes `init` / `single` panic (an unwrap); inside an actix handler that poisons
+            // the shared Mutex, so the transport streams leave it out
+            let nd = if !flavour.contains("http") && g.rng.chance(1, 20) { 0 } else if long { 1 + g.rng.below(40) } else { 1 + g.rng.below(8) };
             lens.insert(*name, nd);
             g.line(&format!("DATA {} 2 {}", name, syms.join(" ")));
             let mut ds: Vec<i64> = (0..nd as i64).map(|d| 100 + 3 * d + if *name == "E" { 1 } else { 0 }).collect();
@@ -200,11 +241,12 @@ pub fn gen(jura_kind: bool, seed: u64, cases: usize, flavour: &str, path: &str) 
                 let x = ds[g.rng.below(n as u64) as usize];
                 ds.push(x);
             }
-            for d in ds {
+            for (di, d) in ds.into_iter().enumerate() {
                 let mut l = String::new();
                 let mut nq = 0;
+                let first = di == 0 && flavour.contains("http");
                 for s in syms.iter() {
-                    if !g.rng.chance(1, 4) {
+                    if first || !g.rng.chance(1, 4) {
                         let bid = (g.rng.below(20) + 1) as f64 * 0.5;
                         let ask = bid + g.rng.below(3) as f64 * 0.5;
                         l += &format!(" {} {} {}", s, fb(bid), fb(ask));
